@@ -200,9 +200,22 @@ func c10Many(run *ev.Run, sizes []int) (int, error) {
 				h := sha256.Sum256([]byte(fmt.Sprintf("c10-prior-%d", i)))
 				return 40 + int64(i) + int64(h[0])%120, int64(i) + int64(h[1])%20, 15 + int64(i) + int64(h[2])%20
 			}
+			// "alternating": only the keys at even positions of the file have a history here, and it lies beyond what the
+			// file states for them (their entries add nothing); the keys between them are new to this instance.
+			if priorMode == "alternating" {
+				prior = func(i int) (slot, as, at int64) {
+					if i%2 == 1 {
+						return -1, -1, -1
+					}
+					return 1000 + int64(i), 500 + int64(i), 600 + int64(i)
+				}
+			}
 			if withPrior {
 				for i, k := range keys {
 					ps, pas, pat := prior(i)
+					if ps < 0 {
+						continue
+					}
 					pr := make([]byte, 9)
 					pr[0] = 1
 					binary.LittleEndian.PutUint64(pr[1:], uint64(ps))
